@@ -257,7 +257,14 @@ func runAdder(fs *flag.FlagSet, args []string) {
 		if float {
 			alg = "float"
 		}
-		fmt.Fprintf(out, "reset adder %s %d\n", alg, mc)
+		switch *impl {
+		case "jdk", "jdkf64":
+			fmt.Fprintf(out, "reset adder %s %d\n", alg, mc)
+		case "mutex":
+			fmt.Fprintf(out, "reset madder\n")
+		default:
+			fmt.Fprintf(out, "reset sadder %s\n", *impl)
+		}
 		s := newSched(rng, len(ths))
 		if family == "contend" {
 			s.stick = 0
